@@ -5,7 +5,7 @@ cd "$(dirname "$0")/.."
 VERIF=$(pwd)
 mkdir -p seeded/detection
 IDS="$@"
-[ -z "$IDS" ] && IDS=$(ls seeded | grep -E '^C[0-9]+_[AB]$')
+[ -z "$IDS" ] && IDS=$(ls seeded | grep -E '^C[0-9]+_[A-D]$')
 for S in $IDS; do
   P=${S%_*}
   OUT=seeded/detection/$S.txt
